@@ -223,7 +223,9 @@ theorem default_ok (t : Nat) (h42 : 42 ≤ t) (ht : t < 4294967296) : ∃ r, for
   -- a layout exists
   have hL : ∃ L, determineFsLayout defaultOpts t = .ok L := by
     unfold determineFsLayout
-    rw [hc, ok_bind, e1, chkDiv_of_ne (by omega), ok_bind, hdiv, if_neg h255, e2, e3, e4]
+    have hne0 : ¬ defaultSpc t = 0 := by
+      simp only [List.mem_cons, List.mem_nil_iff, or_false] at hspc; omega
+    rw [hc, ok_bind, e1, chkDiv_of_ne (by omega), ok_bind, hdiv, if_neg hne0, if_neg h255, e2, e3, e4]
     apply tryTypes_isOk
     · rcases hW with ⟨h1, h2, h3⟩ | ⟨h1, h2, h3⟩ | ⟨h1, h3⟩
       · refine ⟨.fat32, by simp [allowedTypes], _, tryFsLayout_ok_of (by rw [hr32]; exact h1) (harith _ (by rw [hr32]; exact h1)) ?_ ?_⟩
@@ -256,13 +258,6 @@ theorem default_ok (t : Nat) (h42 : 42 ≤ t) (ht : t < 4294967296) : ∃ r, for
       have hmax' : clOf t (defaultSpc t) 1 32 2 (spfOf t 512 (defaultSpc t) 16 1 32 2) ≤ 65524 := hmax
       exact a16 (by omega)
     · exact absurd hft hne
-  have hres := formatChecked_of_layout hacc ht (by rw [e1]; simp) hL (fun _ => by rw [e2]; omega) h16
-  have hov : L.spf * defaultOpts.bps * 8 < 4294967296 := by
-    rw [e1]
-    by_cases h32 : L.fatType = .fat32
-    · rw [hspfeq, h32]; exact hO
-    · exact Nat.lt_of_le_of_lt (Nat.mul_le_mul_right 8 (Nat.mul_le_mul_right 512 (h16 h32))) (by decide)
-  rw [if_pos hov] at hres
-  exact ⟨_, hres⟩
+  exact ⟨_, formatChecked_of_layout hacc ht (by rw [e1]; simp) hL (fun _ => by rw [e2]; omega) h16⟩
 
 end FatVerif.Format
